@@ -35,7 +35,7 @@ SP(rngName) ==
      pskId |-> IF ModeC \in PskModes THEN Leaf("pskid", 5) ELSE <<>>,
      skS |-> IF ModeC \in AuthModes THEN KP("S").sk ELSE <<>>,
      pkS |-> IF ModeC \in AuthModes THEN KP("S").pk ELSE <<>>,
-     rng |-> Leaf("rng" \o rngName, Nsk(KemC))]
+     rng |-> Leaf("rng" \o rngName, Nsk(KemC) + 70)]
 RP(sp) ==
     [suite |-> sp.suite, mode |-> sp.mode, skR |-> KP(IF sp.pkR = KP("R2").pk THEN "R2" ELSE "R").sk,
      enc |-> GenKeyPair(KemC, sp.rng).pk,
